@@ -170,3 +170,35 @@ Fixpoint wf_ktree (gz : list Z -> list Z) (t : ktree) : bool :=
       i64 off && wf_kwrap (mk_kmsg magic attr ts key (Some (gz (flat_map (enc_ktree gz) kids))))
       && forallb (wf_ktree gz) kids
   end.
+
+(* every tree of a forest well-formed and nested less than [depth] wrappers deep *)
+Definition forest_ok (gz : list Z -> list Z) (depth : nat) (ts : list ktree) : bool :=
+  forallb (wf_ktree gz) ts && Nat.ltb (kdepth_forest ts) depth.
+
+(* ------------------------------------------------------------------ a Fetch response whose record sets are given as
+   message-set trees (None = the null record set) *)
+Record t_fetch_part := mk_t_fetch_part
+  { tfp_index : Z; tfp_error : Z; tfp_hwm : Z; tfp_trees : option (list ktree) }.
+Record t_fetch_topic := mk_t_fetch_topic { tft_name : list Z; tft_parts : list t_fetch_part }.
+Record t_fetch := mk_t_fetch { tf_corr : Z; tf_throttle : Z; tf_topics : list t_fetch_topic }.
+
+Definition trees_of (p : t_fetch_part) : list ktree := match tfp_trees p with Some ts => ts | None => [] end.
+
+(* the abstract response of the grammar: RECORDS = the encoded forest *)
+Definition spec_fetch_part (gz : list Z -> list Z) (p : t_fetch_part) : s_fetch_part :=
+  mk_s_fetch_part (tfp_index p) (tfp_error p) (tfp_hwm p)
+    (match tfp_trees p with Some ts => Some (enc_kforest gz ts) | None => None end).
+Definition spec_fetch_topic (gz : list Z -> list Z) (t : t_fetch_topic) : s_fetch_topic :=
+  mk_s_fetch_topic (tft_name t) (map (spec_fetch_part gz) (tft_parts t)).
+Definition spec_fetch (gz : list Z -> list Z) (r : t_fetch) : s_fetch :=
+  mk_s_fetch (tf_corr r) (tf_throttle r) (map (spec_fetch_topic gz) (tf_topics r)).
+
+Definition wf_t_fetch (gz : list Z -> list Z) (depth : nat) (r : t_fetch) : bool :=
+  wf_fetch (spec_fetch gz r)
+  && forallb (fun t => forallb (fun p => forest_ok gz depth (trees_of p)) (tft_parts t)) (tf_topics r).
+
+(* what the consumer of the decoded response must see: per partition the log of its record set, then exhaustion *)
+Definition view_t_fetch (r : t_fetch) : list fetch_item :=
+  flat_map (fun t => map (fun p => mk_fetch_item (tft_name t) (tfp_index p) (tfp_error p) (tfp_hwm p)
+                                                 (view_log (log_of_forest (trees_of p)), None))
+                         (tft_parts t)) (tf_topics r).
